@@ -81,10 +81,10 @@ Theorem C14_site_global_string : forall o w prev p name s,
 Proof. exact site_global_string. Qed.
 Theorem C14_site_map_key : forall w first k x r,
   map_items w first ((k, x) :: r)
-  = jbind (if first then jret tt else txt t_comma)
-      (fun _ => jbind (emit [CStrLit 34 k; CText t_colon]) (fun _ => jbind (w x) (fun _ => map_items w false r))).
+  = jbind (if first then jret tt else jtxt t_comma)
+      (fun _ => jbind (jemit [CStrLit 34 k; CText t_colon]) (fun _ => jbind (w x) (fun _ => map_items w false r))).
 Proof. exact site_map_key. Qed.
-Theorem C14_site_translation_text : forall w body t, eval_part w body (JMRaw t) = write_raw_text t.
+Theorem C14_site_translation_text : forall w body t, jeval_part w body (JMRaw t) = write_raw_text t.
 Proof. exact site_translation_text. Qed.
 Print Assumptions C14_site_raw_text.
 
